@@ -40,7 +40,7 @@ func (c19) Extra() map[string]any {
 
 var c19Labels = []float64{0, 1, 2, 3, 0.5, 1.5, -1, 7, 1e6, -0.25, math.Copysign(0, -1), 1e300, -1e300, 1e-200, math.NaN(), math.Inf(1), math.Inf(-1)}
 
-var c19Bad = []string{"nil-yp", "nil-yt", "nil-both", "rank0", "rank2", "len-mismatch", "rank-mixed"}
+var c19Bad = []string{"nil-yp", "nil-yt", "nil-both", "rank0", "rank2", "len-mismatch", "rank-mixed", "same-rank2", "same-rank0"}
 
 // c19Batch draws a batch size: mostly small, sometimes large (any size is in
 // the quantifier; float round-trips only go wrong for particular sizes).
@@ -100,6 +100,11 @@ func (c19) Generate(r *sim.Rand, tier string) *sim.Scenario {
 				} else {
 					yt[i] = c19enc(c19Labels[r.Intn(nlabels)])
 				}
+			}
+			if r.Bool(0.08) {
+				// one tensor object as prediction and as target
+				st.Tag = "self"
+				copy(yt, yp)
 			}
 			st.F = append(append(st.F, yp...), yt...)
 			sc.Steps = append(sc.Steps, st)
@@ -277,6 +282,10 @@ func (c19) execOne(sc *sim.Scenario) *sim.Outcome {
 			}
 			yp, yt := c19dec(s.F[:n]), c19dec(s.F[n:2*n])
 			tp, tt := vec(yp, s.B), vec(yt, false)
+			if s.Tag == "self" {
+				tt, yt = tp, yp
+				out.Faults["same-object-as-prediction-and-target"]++
+			}
 			last[c] = &lastCall{tp, tt, yp, yt}
 			err := inst[c].Accumulate(tp, tt)
 			if err != nil {
@@ -358,6 +367,12 @@ func (c19) execOne(sc *sim.Scenario) *sim.Outcome {
 				yp, yt = sim.Leaf([]int{n}, s.F[:n], false), sim.Leaf([]int{n, 1}, s.F[n:2*n], false)
 			case "len-mismatch":
 				yp, yt = vec(s.F[:n], false), vec(s.F[n:2*n+1], false)
+			case "same-rank2":
+				yp = sim.Leaf([]int{n, 1}, s.F[:n], false)
+				yt = yp
+			case "same-rank0":
+				yp = sim.Leaf([]int{}, s.F[:1], false)
+				yt = yp
 			default:
 				out.Discard = "malformed"
 				return out
